@@ -179,6 +179,7 @@ func prop(t *rapid.T) {
 			style = 3
 		}
 		intVal := ""
+		var multi []string
 		// values may also be given as non-strings (they are stringified): decimal values are passed as int
 		asAny := func(v string) any {
 			if n, err := strconv.Atoi(v); err == nil && strconv.Itoa(n) == v && len(v) < 9 {
@@ -219,6 +220,11 @@ func prop(t *rapid.T) {
 			for k, v := range extras {
 				q.Add(k, v)
 			}
+			// the builder takes url.Values: a key may carry several values
+			if rapid.Bool().Draw(t, "multiValued") {
+				multi = rapid.SliceOfN(rapid.StringMatching(`[a-c &=]{0,3}`), 2, 3).Draw(t, "multiValues")
+				q["tag"] = append([]string{}, multi...)
+			}
 			u = r.BuildURL(name, rux.NewBuildRequestURL().Params(m).Queries(q))
 		default:
 			u = r.BuildURL(name)
@@ -256,6 +262,13 @@ func prop(t *rapid.T) {
 			}
 		}
 		q := reparsed.Query()
+		if multi != nil {
+			if got := q["tag"]; strings.Join(got, "|") != strings.Join(multi, "|") {
+				t.Fatalf("multi-valued query parameter tag=%q, given %q: %s", got, multi, ctx)
+			}
+			delete(q, "tag")
+			ev.Class("multi-valued-query")
+		}
 		if len(q) != len(extras) {
 			t.Fatalf("query %v, extras given %v: %s", q, extras, ctx)
 		}
